@@ -176,6 +176,64 @@ def run_generate(sess: Session, seed, shard, nshards, budget):
         break
 
 
+def run_fuzz(sess: Session, seed, shard, runs, out_path, finish):
+    """Coverage-guided second driver (atheris / libFuzzer) of the same harness: the bytes chosen by
+    libFuzzer are decoded by the property's Hypothesis strategy (fuzz_one_input), the case goes through
+    the same run_case / signature / known-finding path.  libFuzzer never returns from Fuzz(), so the
+    result file is written by `finish` when the run count is reached and the process exits itself."""
+    import atheris  # pylint: disable=import-outside-toplevel,import-error
+    from hypothesis import given  # pylint: disable=import-outside-toplevel
+
+    prop, tier = sess.prop, sess.tier
+    strat = prop.strategy(tier)
+    state = {"inputs": 0, "decoded": 0}
+
+    @_settings(tier, 1)
+    @given(strat)
+    def test(case):
+        state["decoded"] += 1
+        try:
+            sess.evaluate(case)
+        except CaseFailed:
+            f = sess.last_failure
+            if f is not None and len(sess.found) < 50:
+                sess.found.append(f)
+                sess.local_excl.append(f["sig"])
+
+    fuzz_one = test.hypothesis.fuzz_one_input
+
+    def one(data):
+        state["inputs"] += 1
+        err = None
+        try:
+            fuzz_one(data)
+        except BaseException as e:  # pylint: disable=broad-except
+            err = repr(e) + "\n" + traceback.format_exc()
+        if err is not None or state["inputs"] >= runs:
+            sess.ctx.extra["fuzz_inputs"] = state["inputs"]
+            sess.ctx.extra["fuzz_inputs_decoded_to_cases"] = state["decoded"]
+            finish(err)
+            sys.stdout.flush()
+            os._exit(0 if err is None else 2)  # pylint: disable=protected-access
+
+    corpus = out_path + ".corpus"
+    os.makedirs(corpus, exist_ok=True)
+    s = core.derive_seed(seed, prop.ID, tier, shard, 99) % (2**31 - 1) or 1
+    # starting corpus: an empty corpus leaves libFuzzer mutating inputs of a few bytes for a long time,
+    # which the larger strategies cannot decode into a case.  Seed it with pseudo-random buffers (a pure
+    # function of the shard seed) of the sizes the strategies consume.
+    import random  # pylint: disable=import-outside-toplevel
+
+    rng = random.Random(s)
+    for i in range(48):
+        with open(os.path.join(corpus, f"seed{i:02d}"), "wb") as f:
+            f.write(rng.randbytes((256, 1024, 4096)[i % 3]))
+    argv = [sys.argv[0], f"-seed={s}", f"-runs={runs + 1000}", "-len_control=0", "-max_len=4096",
+            "-timeout=120", "-rss_limit_mb=4096", "-print_final_stats=0", "-verbosity=" + os.environ.get("VERIF_FUZZ_VERBOSITY", "0"), corpus]
+    atheris.Setup(argv, one)
+    atheris.Fuzz()
+
+
 def run_enumerate(sess: Session, shard, nshards):
     prop = sess.prop
     count = 0
@@ -237,17 +295,52 @@ def main(argv=None):
 
     t0 = time.time()
     result = {"shard": a.shard, "mode": a.mode, "ok": False}
+    sess = None
+
+    def write_result():
+        result["wall_s"] = time.time() - t0
+        tmp = a.out + ".tmp"
+        with open(tmp, "w", encoding="utf-8") as f:
+            json.dump(core.to_jsonable(result), f)
+        os.replace(tmp, a.out)
+
     try:
-        core.import_magpylib()
+        if a.mode == "fuzz":
+            try:
+                import atheris  # pylint: disable=import-outside-toplevel,import-error
+            except ImportError as e:
+                result.update(Ctx(a.tier).dump())
+                result["extra"] = {"fuzz_unavailable": repr(e)}
+                result["found"] = []
+                result["ok"] = True
+                write_result()
+                return 0
+            with atheris.instrument_imports(include=["magpylib"]):
+                core.import_magpylib()
+        else:
+            core.import_magpylib()
         prop = core.load_prop(a.prop)
         known = core.load_known_findings(prop.ID)
         sess = Session(prop, a.tier, known)
-        if hasattr(prop, "self_test") and a.mode != "replay" and a.shard == 0:
+        if hasattr(prop, "self_test") and a.mode not in ("replay", "fuzz") and a.shard == 0:
             prop.self_test()
         if a.mode == "replay":
             run_replay(sess, a.files)
         elif a.mode == "enumerate":
             run_enumerate(sess, a.shard, a.nshards)
+        elif a.mode == "fuzz":
+
+            def finish(err):
+                result.update(sess.ctx.dump())
+                result["found"] = sess.found
+                if err is None:
+                    result["ok"] = True
+                else:
+                    result["harness_error"] = err
+                write_result()
+
+            run_fuzz(sess, a.seed, a.shard, a.examples or 1000, a.out, finish)
+            raise HarnessError("atheris.Fuzz returned without reaching the run count")
         else:
             budget = dict(prop.budget(a.tier))
             if a.examples is not None:
@@ -260,11 +353,7 @@ def main(argv=None):
         result["harness_error"] = str(e)
     except BaseException as e:  # pylint: disable=broad-except
         result["harness_error"] = repr(e) + "\n" + traceback.format_exc()
-    result["wall_s"] = time.time() - t0
-    tmp = a.out + ".tmp"
-    with open(tmp, "w", encoding="utf-8") as f:
-        json.dump(core.to_jsonable(result), f)
-    os.replace(tmp, a.out)
+    write_result()
     return 0 if result["ok"] else 2
 
 
